@@ -105,8 +105,11 @@ def lastCompleteBand : Prog (Option Nat) := do
   let rec go : List Nat → Prog (Option Nat)
     | [] => pure none
     | b :: rest => do
-      bandOpen b
-      if ← bandIsClosed b then pure (some b) else go rest
+      match ← (bandOpen b).attempt with
+      | .error (.bandHeadMissing _) => go rest     -- head never (completely) written: not a complete band
+      | .error .json => go rest
+      | .error e => .fail e
+      | .ok () => if ← bandIsClosed b then pure (some b) else go rest
   go ids.reverse
 
 inductive BandSelection
